@@ -38,6 +38,11 @@ type C05Scn struct {
 	Poison string `json:"build_in_between,omitempty"`
 	Matrix bool   `json:"transition_matrix,omitempty"`
 	Chunk  int    `json:"chunk"`
+	// IndexHome: the instance lives inside an index.SlimIndex for the whole
+	// history (built by index.NewSlimIndex when the start state is "built" and
+	// the input allows it); with int64 values the battery also reads through
+	// SlimIndex.Get / RangeGet of that same object.
+	IndexHome bool `json:"instance_lives_in_slimindex,omitempty"`
 }
 
 func genC05(r *Rng, tier string) *C05Scn {
@@ -57,6 +62,8 @@ func genC05(r *Rng, tier string) *C05Scn {
 	}
 	if r.Chance(0.3) {
 		first.Enc = "i32" // lets archived legacy streams take part in the history
+	} else if r.Chance(0.2) {
+		first.Enc = "i64" // offsets: the instance can be read through index.SlimIndex
 	}
 	for i := 0; i < n; i++ {
 		sp, name := genSpec(r, lim)
@@ -177,6 +184,16 @@ func genC05(r *Rng, tier string) *C05Scn {
 		c.History = append(c.History, C05Step{Op: r.PickS("unmarshal", "protounmarshal"), Src: r.Intn(n)})
 	}
 	c.Twin = r.Chance(0.1)
+	c.IndexHome = r.Chance(0.3) || (first.Enc == "i64" && r.Chance(0.5))
+	if c.IndexHome && first.Enc == "i64" && c.Start != "zero" && r.Chance(0.6) {
+		// the instance is built by index.NewSlimIndex (default options, offsets)
+		c.Start = "built"
+		sp := &c.Inputs[c.StartSrc]
+		sp.Opt = [4]int8{-1, -1, -1, -1}
+		if sp.ValIDs == nil && len(sp.Keys) > 0 {
+			sp.ValIDs = genVals(r, len(sp.Keys))
+		}
+	}
 	return c
 }
 
@@ -343,6 +360,7 @@ func (c *C05Scn) historyString() string {
 // battery evaluates every kind of query on st and returns one canonical string.
 func battery(st *trie.SlimTrie, qs [][]byte, enc string, hasVals, complete bool, y func()) string {
 	var sb strings.Builder
+	forgetIndexCopy(st) // (an index over st made earlier is a copy of what st held then)
 	w := intWidth(enc, hasVals)
 	for i, q := range qs {
 		for _, k := range []string{"get", "getid", "rangeget", "search"} {
@@ -354,6 +372,14 @@ func battery(st *trie.SlimTrie, qs [][]byte, enc string, hasVals, complete bool,
 			u := Unit{Kind: map[int]string{1: "geti8", 2: "geti16", 4: "geti32", 8: "geti64"}[w], Q: q}
 			sb.WriteString(u.run(st, y))
 			sb.WriteByte('|')
+		}
+		if enc == "i64" && hasVals {
+			// through index.SlimIndex (the object the instance lives in, if any)
+			for _, k := range []string{"idxget", "idxrangeget"} {
+				u := Unit{Kind: k, Q: q}
+				sb.WriteString(u.run(st, y))
+				sb.WriteByte('|')
+			}
 		}
 		if complete || i%8 == 0 {
 			wv := encFixed(enc) || i%4 == 0
@@ -395,6 +421,7 @@ type c05Probe struct {
 	shape                                              []string
 	failedLoads, legacyLoads, poisoned                 int64
 	legacyChecked, legacyOverContent, legacyRoundTrips int64
+	indexHomed, indexBuilt                             int64
 	inconclusive                                       string
 	diskChunks                                         int64
 }
@@ -601,6 +628,36 @@ func (c *C05Scn) lifecycle(y func(), pr *c05Probe) (outs []string, viol *Violati
 			inst = fresh(enc)
 		}
 	}
+	if c.IndexHome && y == nil {
+		homed := false
+		if c.Start == "built" && holds >= 0 {
+			// the library's other builder: index.NewSlimIndex (int64 offsets, default options)
+			if si := c.Inputs[holds].buildIndex(); si != nil {
+				inst, homed = adoptIndexHome(si), true
+				pr.indexBuilt++
+			}
+		}
+		if !homed {
+			inst = newIndexHome(inst)
+		}
+		pr.indexHomed++
+		if si := homeOf(inst); si != nil && holds >= 0 {
+			// the index is read through before the history starts
+			for _, qb := range c.Queries[holds] {
+				func() {
+					defer func() {
+						if r := recover(); r != nil {
+							if a, ok := r.(abortUnit); ok {
+								panic(a)
+							}
+						}
+					}()
+					si.Get(string(qb))
+					si.RangeGet(string(qb))
+				}()
+			}
+		}
+	}
 	yield()
 
 	for hi, h := range c.History {
@@ -610,7 +667,11 @@ func (c *C05Scn) lifecycle(y func(), pr *c05Probe) (outs []string, viol *Violati
 		step := fmt.Sprintf("history %s step %d (%s)", c.historyString(), hi, h.Op)
 		switch h.Op {
 		case "reset":
-			inst.Reset()
+			if si := homeOf(inst); si != nil {
+				si.Reset()
+			} else {
+				inst.Reset()
+			}
 			holds = -2
 			outs = append(outs, "reset")
 		case "legacy":
@@ -934,6 +995,8 @@ func executeC05(scn *Scenario) *RunResult {
 	res.Counters["fault.large_regular_build_between_two_builds"] += pr.poisoned
 	res.Counters["probe.checked_loads_over_other_content"] += pr.loadsOverContent
 	res.Counters["builds"] += pr.builds
+	res.Counters["probe.instance_lives_in_slimindex"] += pr.indexHomed
+	res.Counters["probe.instance_built_by_NewSlimIndex"] += pr.indexBuilt
 	res.Counters["disk.chunks_written"] += pr.diskChunks
 	for _, s := range pr.shape {
 		res.Counters["shape."+s]++
